@@ -520,4 +520,41 @@ theorem reachable_run (cfg : Cfg) (evs : List Ev) : ∀ s, Reachable cfg s → a
     intro s r h
     simp only [allEnabled, Bool.and_eq_true] at h
     exact ih _ (Reachable.step e r h.1) h.2
+
+/-! ### concrete runs used as witnesses / non-vacuity examples by Properties/C08Files and C09Files -/
+
+def cfg2 : Cfg := { total := 2, req := fun _ => 1, tolerant := true, notifyMissing := true }
+
+/-- two processes take one unit each (process 1 still believes 2 are free when it starts); a third
+    request does not fit although process 0 never heard of the second file. -/
+def evs2 : List Ev := [.acquireBegin 0 10, .acquireEnd 0, .acquireBegin 1 11, .acquireEnd 1, .acquireBegin 0 12]
+
+/-- the current source / the source with the proposed repairs. -/
+def cfgNow : Cfg := { total := 1, req := fun _ => 1, tolerant := false, notifyMissing := false }
+def cfgFixed : Cfg := { total := 1, req := fun _ => 1, tolerant := true, notifyMissing := true }
+
+/-- F6: process 1 dispatches the `created` event of a file that process 0 has opened but not yet
+    written; its observer dies; it later caches the file through a recount; the foreign release is
+    never seen: the directory is empty, nothing is pending, and process 1 shows 0 of 1 for ever. -/
+def evsF6 : List Ev := [.acquireBegin 0 7, .fsEvent 1, .acquireEnd 0, .acquireBegin 1 8, .jobGone 7, .release 0 7]
+
+/-- lost notification: process 1 reclaims the file of the finished job 7 before its owner releases it;
+    the owner's release finds nothing and (current source) does not notify, and its own deletion event,
+    dispatched afterwards, finds nothing in the cache either: no step of this run notifies process 0. -/
+def evsLost : List Ev := [.acquireBegin 0 7, .acquireEnd 0, .fsEvent 1, .jobGone 7, .reclaim 1 7, .release 0 7,
+                          .fsEvent 0, .fsEvent 0, .fsEvent 0]
+
+/-- for every step of a run: did it call `aio_notify()` in process `p`? -/
+def notifiesOf (cfg : Cfg) (p : Proc) : St → List Ev → List Bool
+  | _, [] => []
+  | s, e :: r =>
+    let x := apply cfg s e
+    (match e with
+     | .release q _ => q == p && x.2.notify
+     | .fsEvent q => q == p && x.2.notify
+     | _ => false) :: notifiesOf cfg p x.1 r
+
+/-- process 1 caches a foreign file through its events, then the owner releases it. -/
+def evsOk : List Ev := [.acquireBegin 0 7, .acquireEnd 0, .fsEvent 1, .fsEvent 1, .jobGone 7, .release 0 7]
+
 end XpmVerif.FileTokens
